@@ -235,4 +235,18 @@ func init() {
 			{Name: "matrix", Pkg: "c08", Run: "^TestC08Matrix$", QuickChecks: 8000, ThoroughChecks: 80000, ThoroughShards: 16, CaseFile: true, CrashOracle: "no-crash"},
 		},
 	}
+
+	actorOverlay := []Inject{{RepoRel: "internal/actor/zz_verif_export.go", Src: "overlay/actor_export.go.txt"}}
+	registry["C09"] = &Check{
+		Rule: "C08's trees (2-7 actors, every decision x strategy, providers, failing OnLaunch incarnations) plus failing restart hooks (OnPreRestart / OnRestarted / OnPrelaunch-on-restart, by error or panic); 1-3 bursts of 3-12 messages queued behind a gated handler with the failing message at a drawn position (optionally a second failing message), bursts released one after the other or together (concurrent failures of several actors); at quiescence probes are sent to every live actor, zombies are optionally killed. Oracle: white-box IsPaused / lifecycle state of every registered actor (overlay accessor) + conservation and order of the queued burst + delivery to a surviving target + probes handled exactly once + zombie clauses (no user code after the failed hook, no termination notice, released by Kill with exactly one OnKilled to its parent). Non-trivial = a message was queued behind the failing one or the target survived the failure. Distinct = hash of the case.",
+		Assumptions: []string{
+			"for a failing OnPreRestart both outcomes (restart continues / actor becomes a zombie) are accepted: the documentation and the code disagree and the property only requires 'not stuck'",
+			"white-box reads go through an overlay-only accessor file compiled into internal/actor at check time",
+		},
+		Units: []Unit{
+			{Name: "stuck", Pkg: "c08", Run: "^TestC09NotStuck$", QuickChecks: 8000, ThoroughChecks: 80000, ThoroughShards: 16, CaseFile: true, CrashOracle: "no-crash", Inject: actorOverlay},
+		},
+	}
+	// C08's package also contains the C09 test file, which needs the accessor
+	registry["C08"].Units[0].Inject = actorOverlay
 }
